@@ -175,6 +175,18 @@ def step_counts(m, b, fields, memo, depth=0):
                 hb = m.body_by_id(res['id'])
                 if hb is not None and hb.arg_count >= 1 and hb.local_ty(1).startswith('&mut'):
                     helper_sites[bi] = step_counts(m, hb, fields, memo, depth + 1)
+    # blocks that store directly into the state OF a component (`self.ema.value = ..`): the inlined body of a private step helper of the
+    # component's own type; such a path advanced the component once even though no Method::next call is left to see
+    store_blocks = {}
+    for bi, si, st in b.stmts():
+        if st['s'] != 'assign':
+            continue
+        sf = self_field_of_place(st['pl'])
+        if not sf:
+            continue
+        for fp in fields:
+            if len(sf) > len(fp) and tuple(sf[:len(fp)]) == tuple(fp):
+                store_blocks.setdefault(tuple(fp), set()).add(bi)
     out = {}
     for fp in fields:
         acc = set()
@@ -190,6 +202,8 @@ def step_counts(m, b, fields, memo, depth=0):
                 elif bb in helper_sites:
                     hs = helper_sites[bb].get(fp, {0})
                     cur = {x + y for x in cur for y in hs}
+            if cur == {0} and any(bb in store_blocks.get(tuple(fp), ()) for bb in p if bb != 'loop'):
+                cur = {1}
             acc |= cur
         out[fp] = acc or {0}
     memo[b.id] = out
@@ -253,6 +267,9 @@ def s07_step_once(ctx, only_types=None, rule_id='S07'):
                     else:
                         r.sample({'field': key, 'steps per path': sorted(counts), 'exception': why, 'guard on every skipping path': '%s is %s' % (guard[0], guard[1])})
                     continue
+                if _ref_escapes_into_aggregate(b, fp):
+                    r.undecided.append('%s: a mutable reference to the component is stored in an array / tuple and handed on; how often it is stepped there is not decided' % key)
+                    continue
                 if counts == {0}:
                     r.violate(key + '|never-stepped', 'component %s is never stepped by next(): its window no longer holds the last n of anything' % key, b.file, b.line)
                 elif max(counts) > 1:
@@ -268,6 +285,41 @@ def s07_step_once(ctx, only_types=None, rule_id='S07'):
     r.info.update({'fields': nfields, 'functions': nfn, 'exceptions_used': sorted(used_exc),
                    'stale_exceptions': sorted(set(STEP_EXCEPTIONS) - used_exc) if not only_types else []})
     return r
+
+
+def _ref_escapes_into_aggregate(b, fp):
+    """does next() take `&mut self.<fp>` and put that reference (or a reborrow of it) into an aggregate (array, tuple, struct)?"""
+    refs = set()
+    changed = True
+    rounds = 0
+    while changed and rounds < 4:
+        changed = False
+        rounds += 1
+        for bi, si, st in b.stmts():
+            if st['s'] != 'assign' or st['pl']['p']:
+                continue
+            rv = st['rv']
+            if rv['r'] in ('ref', 'rawptr'):
+                sf = self_field_of_place(rv['pl'])
+                src_l = rv['pl']['l']
+                if (sf is not None and list(sf)[:len(fp)] == list(fp)) or (src_l in refs):
+                    if st['pl']['l'] not in refs:
+                        refs.add(st['pl']['l'])
+                        changed = True
+            elif rv['r'] == 'use' and rv['a'].get('o') in ('copy', 'move') and rv['a']['pl']['l'] in refs and not rv['a']['pl']['p']:
+                if st['pl']['l'] not in refs:
+                    refs.add(st['pl']['l'])
+                    changed = True
+            elif rv['r'] == 'cast' and rv['a'].get('o') in ('copy', 'move') and rv['a']['pl']['l'] in refs:
+                if st['pl']['l'] not in refs:
+                    refs.add(st['pl']['l'])
+                    changed = True
+    for bi, si, st in b.stmts():
+        if st['s'] == 'assign' and st['rv']['r'] == 'agg':
+            for o in st['rv']['ops']:
+                if o.get('o') in ('copy', 'move') and o['pl']['l'] in refs:
+                    return True
+    return False
 
 
 # ---------------------------------------------------------------------------------------------------------------
